@@ -7,7 +7,7 @@ import shutil
 
 V = os.path.dirname(os.path.dirname(os.path.abspath(__file__)))
 rows = []
-for f in sorted(glob.glob(os.path.join(V, "work", "mutres", "C*_m*.json"))):
+for f in sorted(glob.glob(os.path.join(V, "work", "mutres", "C*_*m*.json"))):
     r = json.load(open(f))
     name = os.path.basename(f)[:-5]
     pid, mk = name.split("_")
